@@ -47,7 +47,7 @@ def floors(tier):
     f = {"nontrivial": 250, "held:main": 300, "held:catalogue": 12, "counter:symbolic_comparisons": 1000,
          "counter:numeric_points": 900, "counter:identity_checks": 900}
     for c in ("single-state", "single-event", "multi-transition", "has-B/D", "symbolic-magnitude", "time-dependent",
-              "ode-terms", "derived-param", "derived-chain", "range-style", "string-declaration", "no-events", "mixed-routes"):
+              "ode-terms", "derived-param", "derived-chain", "range-style", "string-declaration", "no-events", "mixed-routes", "grown-model"):
         f["class:" + c] = 5
     f["reach:DeterministicOde.get_ode_eqn"] = 300
     f["reach:BaseOdeModel.get_StateChangeMatrix"] = 300
@@ -141,8 +141,7 @@ def compare_model(m, spec, rng, counters, bad, n_points=3, evaluators=("ode", "v
         bad("get_ReactantMatrix raised", error=short_exc(e))
 
     # ---- numeric evaluation
-    for _ in range(n_points):
-        x, t, th = G.eval_point(rng, spec)
+    for x, t, th in G.eval_points(rng, spec, n_points):
         try:
             m.parameters = list(th)
         except Exception as e:
@@ -221,9 +220,16 @@ def run_case(rng, idx, tier, lane, ctx):
         spec = G.gen_assembly(rng, csafe=cython, time_dep=not cython)
         native = None
         mixed = (not cython) and rng.random() < 0.4
+        grow_k = 0
+        if not cython and not mixed and rng.random() < 0.35:
+            grow_k = G.growable(spec)
         try:
             with contextlib.redirect_stdout(io.StringIO()):
-                if mixed:
+                if grow_k:
+                    # built for the first k states with the processes among them, evaluated, then extended (state_list / add_* / event_list)
+                    m, order = G.build_grown(spec, rng, [round(rng.uniform(0.2, 2), 3) for _ in spec["params"]], grow_k, backend="lambda")
+                    spec = G.permuted_spec(spec, order)
+                elif mixed:
                     # same definition entered through a random mixture of API routes (events keep their identity, their order changes)
                     m, order = G.build_mixed(spec, rng, backend="lambda")
                     spec = G.permuted_spec(spec, order)
@@ -246,7 +252,7 @@ def run_case(rng, idx, tier, lane, ctx):
             counters["native_fail"] = native.fail
             if native.ok == 0 and not wit:
                 return {"status": "inconclusive", "reason": "no-native-compile", "counters": counters, "sample": spec}
-        cls = G.classes(spec) + (["mixed-routes"] if mixed else [])
+        cls = G.classes(spec) + (["mixed-routes"] if mixed else []) + (["grown-model"] if grow_k else [])
     res = {"status": "violated" if wit else "held", "nontrivial": nontrivial(spec, ref), "key": canon_hash(spec),
            "classes": cls, "counters": counters, "sample": spec}
     if wit:
